@@ -92,3 +92,11 @@ prop("C10",
      design_ref="DESIGN.md section 4-U5, 5-C10",
      text="Op level only: unchecked movl/movr/scanl/scanr move the pointer by the shift, preserve the view and the window invariant, and touch nothing outside the block, whenever every visited window lies inside the allocation.",
      note="NOT decided: that a bounded canonical pointer excursion keeps the optimised program inside the margin (needs C01), the CLI's pre-allocation (C16), the JIT's unchecked mode unless unit u6 is listed.")
+
+prop("C15",
+     units=[("verus", "u4_expr", None)],
+     level="proof",
+     technique="Verus deductive proof on the real ir::Expr methods (extracted, with desugarings D2/D6/D7/D8/D9) against a polynomial evaluation function over an arbitrary assignment, generic in the width",
+     design_ref="DESIGN.md section 4-U4, 5-C15",
+     text="Proved fragment: val, var, add (sum), evaluate (evaluation), constant, const_inc_of, identity, constant_part (decompositions) agree with eval(e, rho) = sum coef*prod rho(var) mod 2^bits for every assignment rho and every width. Unbounded.",
+     note="NOT decided (a defect there is not detected): mul, mul_parts, neg, half, normalize, symb_evaluate, inc_of, prod_inc_of, prod_of, split_along, codegen -- closures with captured mutation, iterator adapters and HashMap code that Verus rejects and Kani does not finish. SmallVec is replaced by a Verus-checked Vec wrapper in the verification file (that it refines Vec is C18); slice Ord is assumed to satisfy Equal => equal sequences.")
